@@ -434,13 +434,14 @@ inductive TNode where
   | branch (data : Bytes) (offset : Nat) (v : Option TValue) (kids : List TChild)
   deriving Repr, DecidableEq
 
-/-- `scale.Unmarshal(b, &h)` for `hash.H256`: 32 single-byte reads, and the all-zero array leaves
-    the destination at its zero value (the empty string) -/
-def unmarshalH256 (b : Bytes) : Option Bytes :=
+/-- `scale.Unmarshal(b, &h)` for `hash.H256`: 32 single-byte reads.  `quirk = true` is the code as it
+    is (`H256.UnmarshalSCALE` leaves the destination at its zero value, the empty string, when the
+    array is all zero); `quirk = false` is what the property demands (the 32 bytes). -/
+def unmarshalH256 (quirk : Bool) (b : Bytes) : Option Bytes :=
   if b.length < 32 then none
   else
     let a := b.take 32
-    some (if a.all (· == 0) then [] else a)
+    some (if quirk && a.all (· == 0) then [] else a)
 
 /-- codec `decodeKey` -/
 def tdecodeKey (pkl : Nat) (r : Bytes) : Out (Bytes × Nat × Bytes) :=
@@ -453,19 +454,19 @@ def tdecodeKey (pkl : Nat) (r : Bytes) : Out (Bytes × Nat × Bytes) :=
       if got.length ≠ n then .err .mismatch else .ok (got, pkl % 2, r')
 
 /-- codec `decodeHashedValue` -/
-def tdecodeHashedValue (r : Bytes) : Out (Bytes × Bytes) :=
+def tdecodeHashedValue (quirk : Bool) (r : Bytes) : Out (Bytes × Bytes) :=
   match readN 32 r with
   | none => .err .value
   | some (got, r') =>
     if got.length < 32 then .err .hashShort
-    else match unmarshalH256 got with
+    else match unmarshalH256 quirk got with
       | none => .err .other
       | some h => .ok (h, r')
 
 /-- codec `decodeLeaf` -/
-def tdecodeLeaf (strict : Bool) (v : Variant) (data : Bytes) (off : Nat) (r : Bytes) : Out TNode :=
+def tdecodeLeaf (quirk strict : Bool) (v : Variant) (data : Bytes) (off : Nat) (r : Bytes) : Out TNode :=
   if v = leafHashedV then
-    match tdecodeHashedValue r with
+    match tdecodeHashedValue quirk r with
     | .ok (h, _) => .ok (.leaf data off (.hashed h))
     | .err e => .err e
     | .panic => .panic
@@ -476,10 +477,10 @@ def tdecodeLeaf (strict : Bool) (v : Variant) (data : Bytes) (off : Nat) (r : By
     | some (val, _) => .ok (.leaf data off (.inline val))
 
 /-- the children loop of codec `decodeBranch` -/
-def tdecodeKids (strict : Bool) : List Bool → Bytes → Out (List TChild)
+def tdecodeKids (quirk strict : Bool) : List Bool → Bytes → Out (List TChild)
   | [], _ => .ok []
   | false :: bits, r =>
-    match tdecodeKids strict bits r with
+    match tdecodeKids quirk strict bits r with
     | .ok cs => .ok (.none :: cs)
     | o => o
   | true :: bits, r =>
@@ -487,19 +488,19 @@ def tdecodeKids (strict : Bool) : List Bool → Bytes → Out (List TChild)
     | none => .err .child
     | some (hash, r') =>
       if hash.length < 32 then
-        match tdecodeKids strict bits r' with
+        match tdecodeKids quirk strict bits r' with
         | .ok cs => .ok (.inline hash :: cs)
         | o => o
       else
-        match unmarshalH256 hash with
+        match unmarshalH256 quirk hash with
         | none => .panic
         | some h =>
-          match tdecodeKids strict bits r' with
+          match tdecodeKids quirk strict bits r' with
           | .ok cs => .ok (.hashed h :: cs)
           | o => o
 
 /-- codec `decodeBranch` (the bitmap is read with `binary.Read` = `io.ReadFull`) -/
-def tdecodeBranch (strict : Bool) (v : Variant) (data : Bytes) (off : Nat) (r : Bytes) : Out TNode :=
+def tdecodeBranch (quirk strict : Bool) (v : Variant) (data : Bytes) (off : Nat) (r : Bytes) : Out TNode :=
   match r with
   | b0 :: b1 :: r2 =>
     let bits := bitmapBits b0 b1
@@ -507,15 +508,15 @@ def tdecodeBranch (strict : Bool) (v : Variant) (data : Bytes) (off : Nat) (r : 
       match scaleBytes strict r2 with
       | none => .err .value
       | some (val, r3) =>
-        match tdecodeKids strict bits r3 with
+        match tdecodeKids quirk strict bits r3 with
         | .ok cs => .ok (.branch data off (some (.inline val)) cs)
         | .err e => .err e
         | .panic => .panic
         | .fuel => .fuel
     else if v = branchHashedV then
-      match tdecodeHashedValue r2 with
+      match tdecodeHashedValue quirk r2 with
       | .ok (h, r3) =>
-        match tdecodeKids strict bits r3 with
+        match tdecodeKids quirk strict bits r3 with
         | .ok cs => .ok (.branch data off (some (.hashed h)) cs)
         | .err e => .err e
         | .panic => .panic
@@ -524,15 +525,15 @@ def tdecodeBranch (strict : Bool) (v : Variant) (data : Bytes) (off : Nat) (r : 
       | .panic => .panic
       | .fuel => .fuel
     else
-      match tdecodeKids strict bits r2 with
+      match tdecodeKids quirk strict bits r2 with
       | .ok cs => .ok (.branch data off none cs)
       | .err e => .err e
       | .panic => .panic
       | .fuel => .fuel
   | _ => .err .bitmap
 
-/-- `codec.Decode[hash.H256]` -/
-def tdecode (strict : Bool) (bs : Bytes) : Out TNode :=
+/-- `codec.Decode[hash.H256]` (`quirk`: see `unmarshalH256`) -/
+def tdecodeG (quirk strict : Bool) (bs : Bytes) : Out TNode :=
   match decodeHeader bs with
   | .err e => .err e
   | .panic => .panic
@@ -545,9 +546,12 @@ def tdecode (strict : Bool) (bs : Bytes) : Out TNode :=
       | .panic => .panic
       | .fuel => .fuel
       | .ok (data, off, r1) =>
-        if v = leafV ∨ v = leafHashedV then tdecodeLeaf strict v data off r1
-        else if v = branchV ∨ v = branchValV ∨ v = branchHashedV then tdecodeBranch strict v data off r1
+        if v = leafV ∨ v = leafHashedV then tdecodeLeaf quirk strict v data off r1
+        else if v = branchV ∨ v = branchValV ∨ v = branchHashedV then tdecodeBranch quirk strict v data off r1
         else .err .unsupported
+
+/-- `codec.Decode[hash.H256]` as it is -/
+def tdecode (strict : Bool) (bs : Bytes) : Out TNode := tdecodeG true strict bs
 
 /-- `EncodedValue.Write` -/
 def tvalueEnc : TValue → Bytes
